@@ -209,9 +209,11 @@ class Sim(object):
         self.trace.append(["connect", a, b])
         self.alive.add(frozenset((a, b)))
         for x, y in ((a, b), (b, a)):
-            if (x, y) not in self.up:
-                self.up.add((x, y))
-                self._notify_up(x, y)
+            # an endpoint that has not noticed the loss of the old connection is the accepting side of
+            # the new one: the real TCPTransport reports the replaced connection with a second
+            # onNodeConnected and no disconnect callback (transport.py, _onIncomingMessageReceived)
+            self.up.add((x, y))
+            self._notify_up(x, y)
 
     def _notify_up(self, x, y):
         t = self.transports[x]
